@@ -821,6 +821,12 @@ func setMergeSettings(dpChain []*DataProcessor) mergeSettings {
 				if dp.DoesInputOrderMatter() {
 					break
 				}
+				if k < i && dp.IsPermutingCmd() {
+					// An earlier sort keeps only its first N rows, so the order in
+					// which its parallel outputs get merged decides which rows
+					// survive; it must keep its own merge order and limit.
+					break
+				}
 
 				dp.mergeSettings = curMergeSettings
 			}
